@@ -85,6 +85,16 @@ CLAIMS = {
         text="Legacy traversal is specified as the C05 orders shifted by the start node (offered to filter and prune unless skip_self) and legacy xpath matching as TreeQ.Match along the parent chain; TLC checks the shift law and the agreement of the two path formulations and exports, for every attached legacy tree of <= N objects over six classes with tuple, list, optional and required child fields, every prune x filter subset of the nodes x skip_self for dfs pre / post / bfs, gather runs, all 1-step and sampled / derived multi-step xpaths with the expected matching node set, and the path calculate_xpath must assign to every node. Random attached trees incl. 13-element tuples / lists with indices up to 12 are recorded and validated by Trace_LegacyTrav.tla.",
         note="Trusted: TLC, zoo renderer, xpath text renderer. Malformed-text rejection of the legacy parser shares the grammar of C17 and is exercised there only for the current parser.",
         design="6 C20"),
+    "C18": dict(
+        technique="TLA+ program generator (LegacyScripts.tla, TLC-exhaustive programs of public legacy operations) executed against the real classes + TLA+ property monitor (LegacyMonitor.tla) judging every distinct observed transition via TLC",
+        text="TLC enumerates every program of bounded length over the public legacy operations (construct in three modes, attach, detach, detach_self, replace of a property / of children / with a forbidden key, replace_with a node or None, duplicate attached / detached) with handles of earlier results as arguments; together with random 12-step programs over six classes they are executed against the real classes and every distinct transition (pre-state, operation, outcome, post-state; states projected from public observables only) is validated by TLC against LegacyMonitor.tla: for post-states of successful operations reached through successful operations without double placement the five C18 clauses (children attached with right parent / field / index, parent back link, one attached node per id, content_id equal to an independently built equal tree, ancestors / depth / calculated xpath agree).",
+        note="The specification part is the monitor (the properties as TLA+ predicates over observed states) and the program generator; a transition model of the legacy operations (DESIGN Appendix A) is not bound yet, so outcomes are the library's own. Known finding id-twin-nested is reported as KNOWN-FINDING. Transform visitors / transformers are not in the operation set.",
+        design="6 C18, Appendix A"),
+    "C19": dict(
+        technique="same generator and executions as C18; TLA+ frame predicate (LegacyMonitor.tla C19Clauses) evaluated by TLC on every distinct rejected transition",
+        text="Every distinct observed transition whose operation was rejected with a documented legacy error, from a state reached through successful operations, is validated by TLC against the C19 frame of LegacyMonitor.tla: for every pre-existing node attached?, parent / field / index, field values, id, original id and content_id are unchanged and the registry did not grow. Rejections arise at every child position reachable by the enumerated programs (first / later child, child or grandchild, attached or detached arguments).",
+        note="As C18. Known finding partial-attach-effects (rejected create / attach / replace / replace_with after partially attaching their arguments) is reported as KNOWN-FINDING; any change outside the argument subtrees, or to ids / fields / content ids, is a VIOLATION.",
+        design="6 C19, 7"),
     "C10": dict(
         technique="TLA+ action properties (Immutable, MembershipFrame, FailFrame) on Registry.tla + Observe actions replayed with per-step fingerprints of every live node",
         text="In the Registry machine no action changes the record of a surviving slot (Immutable) and registry membership changes only in detach / detach_self / replace on the receiver's subtree (MembershipFrame); Observe actions stand for every read-only operation kind (traversals, Tree queries, xpath, patterns, visitors, transformers, comparison, hashing, rich printing, accessors, (de)serialization, setattr / delattr on every field) and are UNCHANGED. TLC exports every transition; the driver fingerprints every live node before each call and compares after it, and compares the whole abstract state with the spec's. Recorded histories are checked the same way at every step.",
